@@ -11,8 +11,8 @@ from tools import t3, vlib
 from tools.vlib import hx
 
 
-def gen_ks(rng, allow_runto=True, allow_stream=True, allow_components=True):
-    sp = t3.gen_workflow(rng, maxlen=rng.choice([2, 3, 4]), nproc=rng.randint(1, 4), fanin=False)
+def gen_ks(rng, allow_runto=True, allow_stream=True, allow_components=True, multi_out=True):
+    sp = t3.gen_workflow(rng, maxlen=rng.choice([2, 3, 4]), nproc=rng.randint(1, 4), fanin=False, multi_out=multi_out)
     feats = []
     fileups = []          # (node index, port) of file out-ports whose stream has one item per source item
     for k, n in enumerate(sp.nodes):
@@ -185,7 +185,7 @@ def oracle_determinism(sp, ref, rng):
         if a != b:
             diff = sorted(set(a) ^ set(b)) or [p for p in a if a[p] != b.get(p)]
             return [("schedule-dependent", "files / contents differ between two runs of the same workflow under different schedules: %s" % diff[:4])]
-        if not {"twojoin", "join", "concat", "tags"} & set(sp.ks_features):
+        if not {"twojoin", "join", "concat", "tags", "stream"} & set(sp.ks_features):   # stream: finding D12 (C17)
             x, y = _audits(ref["fs"]), _audits(other["fs"])
             if x != y:
                 return [("schedule-dependent-audit", "audit records (IDs and times aside) differ between two runs under different schedules: %s" % [p for p in x if x[p] != y.get(p)][:3])]
@@ -246,7 +246,9 @@ def ks_case(args):
     """args = (seed, i, oracles): oracles is a subset of {"basic", "audit", "determinism", "rerun", "crash"}"""
     seed, i, oracles = args
     rng = random.Random(seed * 982451653 + i)
-    sp = gen_ks(rng, allow_runto=("crash" not in oracles), allow_components=("crash" not in oracles))
+    # crash oracle: single-output tasks only -- a kill that falls between the renames of one task is finding D2 (C03), and the
+    # kill at a hook point of one task can fall there for another task
+    sp = gen_ks(rng, allow_runto=("crash" not in oracles), allow_components=("crash" not in oracles), multi_out=("crash" not in oracles))
     sc, ref = fresh_run(sp)
     try:
         problems = oracle_basic(sp, ref)
